@@ -96,6 +96,13 @@ def queries(tier):
             qs.append(Query("ws-reassemble-late-receiver-%dparked-%s" % (npk, "complete" if comp else "incomplete"), "c16/wsframe.c", tus=["core/list.c"],
                             env=WENV + ["env_msg.c"], defs={"LATERECV": 1, "NPARKED": npk, "COMPLETE": comp, "SERVER": 1}, unwind=30, timeout=300,
                             group="c16/wsframe.c#laterecv", params={"case": "receiver arrives after fragments were parked", "parked": npk, "message_complete": bool(comp)}))
+    for npk in (1, 2):
+        for ctrl in (1, 2):
+            for clen in (0, 2):
+                qs.append(Query("ws-reassemble-%s%d-between-fragments-%dparked" % ("ping" if ctrl == 1 else "pong", clen, npk), "c16/wsframe.c", tus=["core/list.c"],
+                                env=WENV + ["env_msg.c"], defs={"LATERECV": 1, "NPARKED": npk, "COMPLETE": 0, "SERVER": 1, "CTRL": ctrl, "CLEN": clen}, unwind=30, timeout=300,
+                                group="~c16/wsframe.c#ctrl", params={"case": "control frame between two fragments of a message", "control": "PING" if ctrl == 1 else "PONG",
+                                                                     "control_payload": clen, "parked": npk}))
     for server in (0, 1):
         for npk in (1, 2):
             for lclass in (0, 1):
